@@ -12,7 +12,8 @@
 (*                    v  defect kind / variant inside the class            *)
 (*                    a  parameter (token position class, CIM status code) *)
 (* plus `good`: productions appended to the valid text that is compiled on *)
-(* the same compiler object after the session (empty for most sessions).   *)
+(* the same compiler object after the session (empty for most sessions;    *)
+(* parts F and H).                                                         *)
 (* The harness (harness/mofgen.py) renders a session to real MOF text and  *)
 (* files; TLC enumerates the sessions (Sessions below) and judges what the *)
 (* real compiler did with them (Fails).                                    *)
@@ -382,8 +383,9 @@ SessionsE(kinds) ==
 (*       insensitive).  A valid declaration of the class is available as    *)
 (*       <name>.mof on the search path, so a fresh compiler compiles the    *)
 (*       dependent production; the used one must do the same.  (Not for     *)
-(*       super_self: there the file on the search path would resolve the    *)
-(*       failing production's own superclass.)                              *)
+(*       super_self / super_redefine_cycle: there the file on the search    *)
+(*       path would resolve the failing production's own superclass; part H *)
+(*       covers them.)                                                      *)
 (*  G    everything again in a namespace entered by pragma: the namespace   *)
 (*       pragma other_full, then every qualifier/class/instance focus       *)
 (*       production (valid variants, value and dependency defects)          *)
@@ -393,6 +395,31 @@ Retry == {P("class", "none", u, s) : u \in RetryClassUses, s \in NameSpell}
          \cup {P("instance", "none", "of_failed", s) : s \in NameSpell}
 NsFull == P("namespace", "none", "other_full", 0)
 
+(*  H    failed declaration, then a LATER compile call names the class: a   *)
+(*       class production that cannot be compiled (every value and every    *)
+(*       dependency defect, also super_self and super_redefine_cycle), and  *)
+(*       afterwards - in another compile call on the same compiler object   *)
+(*       and repository - a production that uses a class of that name in    *)
+(*       each of the ways a production can depend on a class (the five of   *)
+(*       part F, and a subclass followed by an instance of the subclass),   *)
+(*       the name spelled as declared / lower / upper.  Unlike part F there *)
+(*       is NO valid declaration of the class anywhere (nothing on the      *)
+(*       search path): whatever the failed declaration left behind in the   *)
+(*       compiler or in the repository is all the later call can find.  The *)
+(*       later text is therefore not "valid MOF": it may be rejected with a *)
+(*       MOFCompileError (the class does not exist) or succeed (the         *)
+(*       repository kept the class); only Total / PositionInside constrain  *)
+(*       it, ReusableAfterFailure does not apply.                           *)
+UndeclaredClassUses == {"ref_undeclared", "emb_undeclared", "param_undeclared",
+                        "sub_undeclared", "subinst_undeclared"}
+Later == {P("class", "none", u, s) : u \in UndeclaredClassUses, s \in NameSpell}
+         \cup {P("instance", "none", "of_undeclared", s) : s \in NameSpell}
+\* uses that make the repository resolve the inherited elements of the class
+\* (GetClass LocalOnly=False walks the superclass chain)
+ResolvesAncestry(p) == p.v \in {"of_undeclared", "subinst_undeclared"}
+\* the text of the later call names a class that has no valid declaration
+LaterUndeclared(ses) == \E i \in DOMAIN ses.good : ses.good[i] \in Later
+
 SessionsF(kinds) ==
   {[main |-> <<f>>, inc |-> << >>, good |-> <<r>>]
    : f \in {x \in FocusOf(kinds \cap {"class"})
@@ -400,19 +427,26 @@ SessionsF(kinds) ==
                 /\ x.v \notin {"super_self", "super_redefine_cycle"}},
      r \in Retry}
 
+SessionsH(kinds) ==
+  {[main |-> <<f>>, inc |-> << >>, good |-> <<r>>]
+   : f \in {x \in FocusOf(kinds \cap {"class"})
+              : x.d \in {"value", "dependency"}},
+     r \in Later}
+
 SessionsG(kinds) ==
   {[main |-> <<NsFull, f>>, inc |-> << >>, good |-> << >>]
    : f \in {x \in FocusOf(kinds \cap {"qualDecl", "class", "instance"})
               : x.d \in {"none", "value", "dependency"}}}
 
 SessionParts(maxprod, kinds) ==
-  [i \in 1..(maxprod + 6) |->
+  [i \in 1..(maxprod + 7) |->
      IF i <= maxprod THEN SessionsA(i, kinds)
      ELSE IF i = maxprod + 1 THEN SessionsB(kinds)
      ELSE IF i = maxprod + 2 THEN SessionsC(kinds)
      ELSE IF i = maxprod + 3 THEN SessionsD(kinds)
      ELSE IF i = maxprod + 4 THEN SessionsE(kinds)
-     ELSE IF i = maxprod + 5 THEN SessionsF(kinds) ELSE SessionsG(kinds)]
+     ELSE IF i = maxprod + 5 THEN SessionsF(kinds)
+     ELSE IF i = maxprod + 6 THEN SessionsG(kinds) ELSE SessionsH(kinds)]
 
 AllProds(ses) == Rng(ses.main) \cup Rng(ses.inc)
 
@@ -458,7 +492,8 @@ ColOk(e, i) == e.column >= 0 /\ e.column <= MaxOf(Rng(e.texts[i].lens)) + 1
 ColInLine(e, i) == LineOk(e, i) /\ e.column >= 0
                    /\ e.column <= e.texts[i].lens[e.lineno] + 1
 
-InitState == [failed |-> FALSE, calls |-> 0, handle |-> "", retry |-> FALSE]
+InitState == [failed |-> FALSE, calls |-> 0, handle |-> "", retry |-> FALSE,
+              undecl |-> FALSE]
 
 Fails(s, e) ==
   LET positioned == IsMOFCompileError(e) /\ e.haspos IN
@@ -473,7 +508,10 @@ Fails(s, e) ==
   \cup F("PositionInside.Column",
          ~positioned \/ ~(\E i \in Cands(e) : LineOk(e, i))
          \/ \E i \in Cands(e) : LineOk(e, i) /\ ColOk(e, i))
-  \cup (IF e.call = "good" /\ s.failed /\ s.handle # "mockapi"
+  \* part H: the text of the later call is not valid MOF (it names a class
+  \* without a valid declaration); the statement promises nothing about its
+  \* result, only that the call is total
+  \cup (IF e.call = "good" /\ s.failed /\ s.handle # "mockapi" /\ ~s.undecl
         THEN F("Harness.ReferenceCompileOk",
                e.refout = "ok" \/ (s.retry /\ e.refout \in MOFErrors))
              \cup F("ReusableAfterFailure.Outcome", e.out = e.refout)
@@ -492,5 +530,6 @@ Apply(s, e) ==
    calls |-> s.calls + 1,
    handle |-> IF e.call = "bad" THEN e.ses.handle ELSE s.handle,
    \* part F: the good text depends on a class the session dealt with
-   retry |-> IF e.call = "bad" THEN e.ses.good # << >> ELSE s.retry]
+   retry |-> IF e.call = "bad" THEN e.ses.good # << >> ELSE s.retry,
+   undecl |-> IF e.call = "bad" THEN LaterUndeclared(e.ses) ELSE s.undecl]
 =============================================================================
